@@ -11,7 +11,8 @@
 From Coq Require Import List NArith ZArith Bool.
 From SW Require Import model.NeedleMap proof.EcIndexProofs proof.NeedleMapSearch proof.NeedleMapSec
   proof.NeedleMapCm proof.NeedleMapRefine proof.NeedleMapProofs proof.NeedleMapKinds
-  proof.NeedleMapCounters proof.NeedleMapCountersMain proof.NeedleMapRunning.
+  proof.NeedleMapCounters proof.NeedleMapCountersMain proof.NeedleMapRunning proof.NeedleMapExact
+  proof.NeedleMapFill.
 Import ListNotations.
 Local Open Scope N_scope.
 
@@ -156,12 +157,69 @@ Theorem c05_bloom_oracle_refuted :
 Proof. exact bloom_false_positive_witness. Qed.
 Print Assumptions c05_bloom_oracle_refuted.
 
+(* ---- the recomputed counters, exactly (keys may be written any number of times) ---- *)
+(* EVERY index file of well-formed entries: FileCounter = distinct keys, DeletionCounter =
+   entries - distinct keys, FileByteCounter = valid sizes of all entries, DeletionByteCounter =
+   valid sizes of the entries that are not the last of their key, MaximumFileKey = largest key *)
+Theorem c05_index_metric_exact : forall osz es, ok_osz osz -> Forall (wf_entry osz) es ->
+  metric_from_index osz (encode osz es) = exact_metric es.
+Proof. exact index_metric_exact. Qed.
+Print Assumptions c05_index_metric_exact.
+
+(* every disciplined history without an empty Put: the LevelDB map regenerated from the .idx and
+   the one reopened with its db kept (isLevelDbFresh) both show [reload_metric]: FileCounter = keys
+   ever put, DeletionCounter = puts + deletes - keys ever put, byte totals and max key as running *)
+Theorem c05_reload_counters_exact : forall osz ops, ok_osz osz ->
+  forallb (op_in_range osz) ops = true -> disciplined ops = true -> trig_empty_put ops = false ->
+  let s := snd (ldb_run osz ldb0 ops) in
+  l_met (ldb_load osz (l_idx s)) = reload_metric ops (l_met s) /\
+  l_met (ldb_reopen_fresh osz s) = reload_metric ops (l_met s).
+Proof. exact reload_counters_exact. Qed.
+Print Assumptions c05_reload_counters_exact.
+
+Theorem c05_sorted_file_counters_exact : forall osz batch ops, ok_osz osz ->
+  forallb (op_in_range osz) ops = true -> disciplined ops = true -> trig_empty_put ops = false ->
+  let s := snd (nm_run osz batch nm0 ops) in
+  metric_from_index osz (nm_idx s) = reload_metric ops (nm_met s).
+Proof. exact sorted_file_counters_exact. Qed.
+Print Assumptions c05_sorted_file_counters_exact.
+
+(* the trigger of known finding 1 is exact: below 2^32 operations the recomputed counters
+   equal the running ones IF AND ONLY IF no key was put twice *)
+Theorem c05_reload_counters_iff : forall osz ops, ok_osz osz ->
+  forallb (op_in_range osz) ops = true -> disciplined ops = true -> trig_empty_put ops = false ->
+  N.of_nat (length ops) < two32 ->
+  let s := snd (ldb_run osz ldb0 ops) in
+  (l_met (ldb_load osz (l_idx s)) = l_met s <-> trig_rewrite ops = false).
+Proof. exact reload_counters_iff. Qed.
+Print Assumptions c05_reload_counters_iff.
+
+(* ---- closed forms used by the correspondence check for long inputs ---- *)
+(* n ascending Puts (n up to the section capacity) leave exactly the one section [fill_cm] and
+   the reference [fill_ref]; a history fill ++ tail can be evaluated from there *)
+Theorem c05_fill_then_run : forall batch base step n tail, fill_ok batch base step n = true ->
+  cm_run batch [] (fill_ops base step n ++ tail) =
+    (repeat (RSet 0 0%Z) (N.to_nat n) ++ fst (cm_run batch (fill_cm base step n) tail),
+     snd (cm_run batch (fill_cm base step n) tail)) /\
+  ref_run [] (fill_ops base step n ++ tail) =
+    (repeat (RSet 0 0%Z) (N.to_nat n) ++ fst (ref_run (fill_ref base step n) tail),
+     snd (ref_run (fill_ref base step n) tail)).
+Proof. exact fill_then_run_both. Qed.
+Print Assumptions c05_fill_then_run.
+
+(* the readers of an index file evaluated on its entry list = the byte-level model *)
+Theorem c05_long_index_readers : forall osz head base step n tail ans, ok_osz osz ->
+  Forall (wf_entry osz) (long_entries head base step n tail) ->
+  let es := long_entries head base step n tail in
+  l_db (ldb_load osz (encode osz es)) = ldb_load_entries es /\
+  write_sorted_from_idx osz (encode osz es) = encode osz (sorted_entries es) /\
+  metric_from_index_o osz (encode osz es) ans = metric_entries_o es ans.
+Proof. exact long_index_readers. Qed.
+Print Assumptions c05_long_index_readers.
+
 (* non-vacuity: a disciplined, write-once history over three sections (keys 2^32 apart, out
    of order, one delete) under the 5-byte build satisfies every hypothesis above, and the
    model answers as the reference says *)
-Definition c05_ex : list op :=
-  [Put 4294967301 1099511627775 7%Z; Put 5 1 10%Z; Put 3 4294967296 20%Z; Put 100000 9 30%Z;
-   Del 3 12; Get 3; Get 5; Get 4294967301; Get 8589934597].
 Example c05_example :
   ok_osz 5 /\ keys_ok c05_ex /\ forallb (op_in_range 5) c05_ex = true /\
   disciplined c05_ex = true /\ trig_empty_put c05_ex = false /\ trig_rewrite c05_ex = false /\
@@ -171,7 +229,17 @@ Example c05_example :
      RGet (Some (3, 4294967296, (-20)%Z)); RGet (Some (5, 1, 10%Z));
      RGet (Some (4294967301, 1099511627775, 7%Z)); RGet None] /\
   ref_metric c05_ex = {| m_del := 1; m_file := 4; m_delb := 20; m_fileb := 67; m_max := 4294967301 |}.
-Proof.
-  split; [right; reflexivity|]. split; [repeat constructor; vm_compute; reflexivity|].
-  repeat split; vm_compute; reflexivity.
-Qed.
+Proof. exact c05_example_holds. Qed.
+Print Assumptions c05_example.
+
+(* non-vacuity of the exact counter theorems on a history that rewrites keys, and of [fill_ok]
+   at the real capacity *)
+Example c05_example_rewrite :
+  forallb (op_in_range 4) c05_ex_rewrite = true /\ disciplined c05_ex_rewrite = true /\
+  trig_empty_put c05_ex_rewrite = false /\ trig_rewrite c05_ex_rewrite = true /\
+  ref_metric c05_ex_rewrite = {| m_del := 2; m_file := 4; m_delb := 40; m_fileb := 100; m_max := 2 |} /\
+  reload_metric c05_ex_rewrite (ref_metric c05_ex_rewrite) =
+    {| m_del := 3; m_file := 2; m_delb := 40; m_fileb := 100; m_max := 2 |} /\
+  fill_ok 100000 0 2 100000 = true.
+Proof. exact c05_example_rewrite_holds. Qed.
+Print Assumptions c05_example_rewrite.
